@@ -52,9 +52,9 @@ def run(ck):
             ck.cat("op:" + o["op"])
     ck.sample({"mgr": traces[len(traces) // 2]["mgr"], "ops": [{k: o[k] for k in ("op", "a", "b", "i", "j", "n", "it")} for o in traces[len(traces) // 2]["ops"]]})
     ck.sample({"last_event_with_projection": traces[-1]["ops"][-1]})
-    ck.rule = ("TLC enumerates every history of <=%d bins-manager operations (new, add, copy, sort, add-empty, remove, concatenate, combine over 2 slots x 2 items x <=2 bins, "
+    ck.rule = ("TLC enumerates every history of <=%d bins-manager operations (new, add, rejected add (an item the value function does not know: no effect allowed), copy, sort, add-empty, remove, concatenate, combine over 2 slots x 2 items x <=2 bins, "
                "hand-over discipline built in) and simulates deep walks (3 slots, zero-valued item, <=4 bins); each history is replayed on a real BinnerKeepingContents and "
-               "BinnerKeepingSums, recording the projected state of every live array after every operation and the old handles of handed-over arguments; TLC steps the "
+               "BinnerKeepingSums, recording the projected state of every live array after every operation and the old handles of handed-over arguments (including the raw length of their list component); TLC steps the "
                "value model through every event. non-trivial = distinct (manager, history) with >=2 operations") % (4 if q else 5)
     fails = ck.judge("JBinner", traces, {"C16"}, what="C16 histories stepped through BinnerVal", chunk=8000, extra_consts=JCFG,
                      count_events=lambda t: len(t["ops"]))
